@@ -1047,22 +1047,22 @@ func TestPropAdminHistory(t *testing.T) {
 					return
 				}
 				ri := rapid.IntRange(0, len(m.Routes)-1).Draw(t, "ridx")
-				opt := rapid.SampledFrom([]string{"prefix", "notPrefix", "sub", "notSub", "regex", "notRegex", "bogus"}).Draw(t, "opt")
-				val := rapid.SampledFrom([]string{"foo", "", "ba", "^a", "(unclosed"}).Draw(t, "val")
-				err := tab.UpdateRoute(m.Routes[ri].Key, map[string]string{opt: val})
-				bad := opt == "bogus" || ((opt == "regex" || opt == "notRegex") && val == "(unclosed")
+				opts, bad := genModOpts(t)
+				err := tab.UpdateRoute(m.Routes[ri].Key, opts)
 				if bad {
 					if err == nil {
-						t.Fatalf("UpdateRoute(%s=%q) did not return an error", opt, val)
+						t.Fatalf("UpdateRoute(%v) did not return an error", opts)
 					}
-					rejected = true
+					rejected = true // all or nothing: the model stays as it is
 				} else {
 					if err != nil {
-						t.Fatalf("UpdateRoute(%s=%q): %v", opt, val, err)
+						t.Fatalf("UpdateRoute(%v): %v", opts, err)
 					}
-					setOpt(&m.Routes[ri].Filter, opt, val)
+					for opt, val := range opts {
+						setOpt(&m.Routes[ri].Filter, opt, val)
+					}
 				}
-				hist = append(hist, fmt.Sprintf("modRoute %s %s=%q", m.Routes[ri].Key, opt, val))
+				hist = append(hist, fmt.Sprintf("modRoute %s %v", m.Routes[ri].Key, opts))
 			},
 			"modDest": func(t *rapid.T) {
 				ri := -1
@@ -1076,22 +1076,23 @@ func TestPropAdminHistory(t *testing.T) {
 				}
 				n := len(m.Routes[ri].Dests)
 				j := rapid.IntRange(0, n).Draw(t, "didx")
-				opt := rapid.SampledFrom([]string{"prefix", "notPrefix", "sub", "notSub", "regex", "notRegex", "bogus"}).Draw(t, "opt")
-				val := rapid.SampledFrom([]string{"foo", "", "ba", "^a", "(unclosed"}).Draw(t, "val")
-				err := tab.UpdateDestination(m.Routes[ri].Key, j, map[string]string{opt: val})
-				bad := j >= n || opt == "bogus" || ((opt == "regex" || opt == "notRegex") && val == "(unclosed")
+				opts, bad := genModOpts(t)
+				err := tab.UpdateDestination(m.Routes[ri].Key, j, opts)
+				bad = bad || j >= n
 				if bad {
 					if err == nil {
-						t.Fatalf("UpdateDestination(%d, %s=%q) with %d destinations did not return an error", j, opt, val, n)
+						t.Fatalf("UpdateDestination(%d, %v) with %d destinations did not return an error", j, opts, n)
 					}
-					rejected = true
+					rejected = true // all or nothing: the model stays as it is
 				} else {
 					if err != nil {
-						t.Fatalf("UpdateDestination(%d, %s=%q): %v", j, opt, val, err)
+						t.Fatalf("UpdateDestination(%d, %v): %v", j, opts, err)
 					}
-					setOpt(&m.Routes[ri].Dests[j].Filter, opt, val)
+					for opt, val := range opts {
+						setOpt(&m.Routes[ri].Dests[j].Filter, opt, val)
+					}
 				}
-				hist = append(hist, fmt.Sprintf("modDest %s %d %s=%q", m.Routes[ri].Key, j, opt, val))
+				hist = append(hist, fmt.Sprintf("modDest %s %d %v", m.Routes[ri].Key, j, opts))
 			},
 			"": func(t *rapid.T) {
 				checkSnapshot(t, tab, m, strings.Join(hist, "; "))
@@ -1105,6 +1106,25 @@ func TestPropAdminHistory(t *testing.T) {
 		}
 		rec.Case(strings.Join(hist, "; "), rejected && delMid, fmt.Sprintf("rejected-op=%v", rejected), fmt.Sprintf("unknown-route-noop=%v", noop), fmt.Sprintf("deleted-non-last=%v", delMid))
 	})
+}
+
+// genModOpts: 1-3 distinct options of one modRoute / modDest request; bad: the request as a whole must be refused
+// (an unknown option or a regex that does not compile anywhere in it) and must then change NOTHING.
+func genModOpts(t *rapid.T) (map[string]string, bool) {
+	opts := map[string]string{}
+	bad := false
+	for i, n := 0, rapid.SampledFrom([]int{1, 1, 2, 2, 3}).Draw(t, "nopts"); i < n; i++ {
+		opt := rapid.SampledFrom([]string{"prefix", "notPrefix", "sub", "notSub", "regex", "notRegex", "bogus"}).Draw(t, "opt")
+		if _, dup := opts[opt]; dup {
+			continue
+		}
+		val := rapid.SampledFrom([]string{"foo", "", "ba", "^a", "(unclosed", "other."}).Draw(t, "val")
+		opts[opt] = val
+		if opt == "bogus" || ((opt == "regex" || opt == "notRegex") && val == "(unclosed") {
+			bad = true
+		}
+	}
+	return opts, bad
 }
 
 func setOpt(f *gen.Filter, opt, val string) {
